@@ -152,8 +152,103 @@ class Check(PropertyCheck):
             s.close()
         return out
 
+    def error_schedule(self, code, before, pending, after, kind="ERROR"):
+        """real AshProtocol + real Gateway + a recording application: `before` ERROR frames with this code before the reset
+        request, `pending` while it waits, `after` after its timeout; each frame in its own loop callback.  Returns the
+        failure codes the application was told, in order, and how the request ended."""
+        import asyncio
+        import ashref
+        import ashrun
+        import bellows.ash
+        import bellows.uart
+        import vloop
+        loop = vloop.VLoop()
+        asyncio.set_event_loop(loop)
+        vloop.patch_monotonic(bellows.ash, loop)
+        told = []
+
+        class App:
+            def enter_failed_state(self, c):
+                told.append(int(c))
+
+            def frame_received(self, data):
+                pass
+
+            def connection_lost(self, exc):
+                told.append("lost")
+        out = {}
+        try:
+            gw = bellows.uart.Gateway(App())
+            proto = bellows.ash.AshProtocol(gw)
+            tr = ashrun.Recorder()
+            proto.connection_made(tr)
+            wire = ashref.wire((kind, 2, code))
+
+            def deliver(n):
+                for _ in range(n):
+                    loop.call_soon(proto.data_received, wire)
+                    loop.settle()
+            deliver(before)
+            res = {}
+
+            async def req():
+                try:
+                    await gw.reset()
+                    res["reset"] = "ok"
+                except asyncio.TimeoutError:
+                    res["reset"] = "timeout"
+                except BaseException as e:  # noqa
+                    res["reset"] = "raise:" + type(e).__name__
+            t = loop.create_task(req())
+            loop.settle()
+            out["rst_written"] = any(e[0] == "w" and e[1] == "rst" for e in tr.log)
+            deliver(pending)
+            guard = 0
+            while not t.done() and guard < 20:
+                guard += 1
+                loop.tick()
+            deliver(after)
+            out["told"] = list(told)
+            out["reset"] = res.get("reset")
+        except BaseException as e:  # noqa
+            out["crash"] = repr(e)
+        finally:
+            loop.close()
+        return out
+
     def extra_checks(self, rep, tier, rng):
         """on the real AshProtocol: bytes of the reset request; counters after RSTACK from every prior value"""
+        # ERROR frames (and RSTACK frames with a non-software code) before / during / after the request, once and twice with
+        # the same code: every one of them is handled as an NCP failure, none completes the request
+        nsched = 0
+        codes = [0x51, 0x52, 0x02, 0x00, 0x0B, 0x80] if tier == "quick" else list(range(0, 256, 3)) + [0x51, 0x52, 0x0B]
+        for kind in ("ERROR", "RSTACK"):
+            for code in codes:
+                if code == 0x0B:
+                    # RSTACK(0x0B) is the software-reset acknowledgement: completion, not failure.  ERROR(0x0B) is outside the
+                    # property's domain (0x0B is a reset code, not an ASH error code); bellows reports ERROR frames upward
+                    # through reset_received(code), so it would complete the request: recorded as an observation in DESIGN.md
+                    continue
+                for before, pending, after in ((0, 1, 0), (0, 2, 0), (1, 1, 0), (2, 0, 0), (0, 0, 2), (0, 1, 1), (1, 0, 1), (1, 1, 1)):
+                    out = self.error_schedule(code, before, pending, after, kind)
+                    nsched += 1
+                    want = [code] * (before + pending + after)
+                    why = None
+                    if "crash" in out:
+                        why = f"the scenario crashed: {out['crash']}"
+                    elif out["told"] != want:
+                        why = (f"{before}+{pending}+{after} {kind} frames with code 0x{code:02X} (before / during / after the reset "
+                               f"request): the application was told {out['told']}, every one of them is an NCP failure: {want}")
+                    elif out["reset"] != "timeout":
+                        why = f"a reset request answered only by {kind}(0x{code:02X}) ended with {out['reset']}, not with the reset timeout"
+                    elif not out["rst_written"]:
+                        why = "the reset request wrote no RST frame"
+                    if why:
+                        rep.violation({"input": {"frame": kind, "code": code, "before_request": before, "while_pending": pending,
+                                                 "after_timeout": after},
+                                       "observed": out, "required": why}, found_input=True, signature="gateway:error-schedule")
+                        break
+        rep.cov["error_frame_schedules"] = nsched
         nloss = 0
         for waiter in ("reset", "startup", "both"):
             for loss in ("error-frame", "rstack-other", "close", "lost", "eof"):
